@@ -8,7 +8,9 @@ VERIF = os.path.dirname(os.path.dirname(os.path.abspath(__file__)))
 REPO = os.environ.get('VERIF_REPO', '/repo')
 CRATE = os.path.join(REPO, 'packages', 'rooc')
 WORK = os.path.join(VERIF, '.work')
-DRIVER = os.path.join(WORK, 'target', 'debug', 'rooc-verif-driver')
+# VERIF_REPO (background runs on a snapshot of the repository only; registered commands always use /repo)
+ALT = REPO != '/repo'
+DRIVER = os.path.join(WORK, 'target-alt' if ALT else 'target', 'debug', 'rooc-verif-driver')
 NPROC = int(os.environ.get('VERIF_JOBS', '16'))
 
 INF = float('inf')
@@ -52,10 +54,16 @@ def build_driver(log=None):
     t = time.time()
     os.makedirs(WORK, exist_ok=True)
     drv = os.path.join(VERIF, 'driver')
+    if ALT:
+        alt = os.path.join(WORK, 'driver-alt')
+        shutil.copytree(drv, alt, dirs_exist_ok=True, ignore=shutil.ignore_patterns('target'))
+        ct = open(os.path.join(alt, 'Cargo.toml')).read().replace('/repo/packages/rooc', CRATE)
+        open(os.path.join(alt, 'Cargo.toml'), 'w').write(ct)
+        drv = alt
     lock_src = os.path.join(CRATE, 'Cargo.lock')
     if os.path.exists(lock_src):
         shutil.copyfile(lock_src, os.path.join(drv, 'Cargo.lock'))
-    env = dict(os.environ, CARGO_NET_OFFLINE='true', CARGO_TARGET_DIR=os.path.join(WORK, 'target'))
+    env = dict(os.environ, CARGO_NET_OFFLINE='true', CARGO_TARGET_DIR=os.path.join(WORK, 'target-alt' if ALT else 'target'))
     p = subprocess.run(['cargo', 'build', '--offline', '--quiet'], cwd=drv, env=env,
                        capture_output=True, text=True)
     if p.returncode != 0:
